@@ -2958,7 +2958,13 @@ def are_co_aligned(*exprs):
 
 
 def is_valid_blockwise_op(expr):
-    return isinstance(expr, Blockwise) and not isinstance(expr, (FromPandas, FromArray))
+    from dask_expr._indexing import LocBase
+
+    # loc on known divisions builds its own layer: output partition i reads
+    # input partition start + i, which a fused per-index task cannot express
+    return isinstance(expr, Blockwise) and not isinstance(
+        expr, (FromPandas, FromArray, LocBase)
+    )
 
 
 def optimize_blockwise_fusion(expr):
